@@ -366,11 +366,16 @@ class Sampler():
                     if key in group:
                         setattr(self, key, np.array(group[key]))
 
-                self.bounds = [
-                    UnitCube.read(fstream['bound_0'], rng=self.rng), ]
-                for i in range(1, len(self.shell_n)):
-                    self.bounds.append(NautilusBound.read(
-                        fstream['bound_{}'.format(i)], rng=self.rng))
+                # The unit cube shell is removed if it ends up empty. Thus, use
+                # the stored type of each bound instead of its position.
+                self.bounds = []
+                for i in range(len(self.shell_n)):
+                    if fstream['bound_{}'.format(i)].attrs['type'] == 'UnitCube':
+                        self.bounds.append(UnitCube.read(
+                            fstream['bound_{}'.format(i)], rng=self.rng))
+                    else:
+                        self.bounds.append(NautilusBound.read(
+                            fstream['bound_{}'.format(i)], rng=self.rng))
 
     def run(self, f_live=0.01, n_shell=1, n_eff=10000, n_like_max=np.inf,
             discard_exploration=False, timeout=np.inf, verbose=False):
